@@ -75,8 +75,8 @@ Qed.
 Lemma rewrite_all_id : forall tab st o, snd (rewrite_all idtx tab st o) = o.
 Proof.
   intros tab st o. unfold rewrite_all.
-  assert (H : forall ps acc, snd (fold_left (fun (acc : option obj * obj) p => rewrite_templates idtx (fst acc) (snd acc) p) ps acc) = snd acc).
-  { induction ps as [|p ps IH]; intro acc; [reflexivity|]. cbn [fold_left]. rewrite IH. apply rewrite_templates_id. }
+  assert (H : forall ps acc, snd (fold_left (fun (acc : option obj * obj) p => rewrite_path idtx (fst acc) (snd acc) p) ps acc) = snd acc).
+  { induction ps as [|p ps IH]; intro acc; [reflexivity|]. cbn [fold_left]. rewrite IH, rewrite_path_snd. apply rewrite_templates_id. }
   specialize (H (catalog_paths tab (type_of o)) (snd st, o)).
   destruct (fold_left _ (catalog_paths tab (type_of o)) (snd st, o)) as [loc' o']. cbn [snd] in *. now subst.
 Qed.
